@@ -2962,6 +2962,11 @@ class _Simu(_IObserver, _params.Updatable, ABC):
         # -------------------
         normals, nodes = mesh.Get_normals(nodes)
 
+        if nodes.size == 0:
+            # nodes that bound no boundary element carry no pressure
+            empty = np.zeros(0, dtype=int)
+            return np.zeros(0, dtype=float), empty, empty
+
         values = [val * magnitude for val in normals[:, :inDim].T]
 
         unknowns = self.Get_unknowns(problemType)[:inDim]
